@@ -4,4 +4,6 @@ go 1.22
 
 require github.com/aclements/go-moremath v0.0.0
 
+require gonum.org/v1/gonum v0.15.1 // indirect
+
 replace github.com/aclements/go-moremath => /repo
